@@ -220,6 +220,15 @@ def interpret(cluster, meta, raw):
             "rendered": d.get("rendered", "")[:3000],
             "props": ob.get("props", []) if ob else [],
         })
+    if compile_errors:
+        msg, line, rendered = compile_errors[0]
+        where = ""
+        if line and 1 <= line <= len(origin):
+            o = origin[line - 1]
+            where = f" at generated line {line} (from {o.get('file')}:{o.get('line')})" if o.get("file") else f" at generated line {line}"
+        res.update(status="undecided", reason=f"compile-type error in generated text (unsupported construct or type error): {msg[:300]}{where}", detail=rendered)
+        res["failures"] = failures
+        return res
     if vjson is not None:
         try:
             res["smt_ms"] = vjson["times-ms"]["smt"]["total"]
